@@ -160,8 +160,9 @@ Definition route_table : list row := [
   {| rt_key := """/custom_static/"""; rt_gate := GPublic; rt_steps := [] |};
   {| rt_key := "runtimeState.u2fRegisterRequest"; rt_gate := GMask MWebUI XSelfOrAdminU2F;
      rt_steps := [SCheck; SAuth MWebUI; SSelfOrAdminU2F; SCheck; SEff EChange] |};
+  (* POST only since fix 6ebb558 (the method test comes after the body and the profile were read) *)
   {| rt_key := "runtimeState.u2fRegisterResponse"; rt_gate := GMask MWebUI XSelfOrAdminU2F;
-     rt_steps := [SCheck; SAuth MWebUI; SSelfOrAdminU2F; SCheck; SEff EChange] |};
+     rt_steps := [SCheck; SAuth MWebUI; SSelfOrAdminU2F; SCheck; SMeth [POST]; SCheck; SEff EChange] |};
   {| rt_key := "runtimeState.u2fSignRequest"; rt_gate := GMask MAny XNone;
      rt_steps := [SAuth MAny; SCheck; SEff EStart] |};
   {| rt_key := "runtimeState.u2fSignResponse"; rt_gate := GMask MAny XNone;
@@ -169,7 +170,7 @@ Definition route_table : list row := [
   {| rt_key := "runtimeState.webauthnBeginRegistration"; rt_gate := GMask MWebUI XSelfOrAdminU2F;
      rt_steps := [SCheck; SAuth MWebUI; SSelfOrAdminU2F; SCheck; SEff EChange] |};
   {| rt_key := "runtimeState.webauthnFinishRegistration"; rt_gate := GMask MWebUI XSelfOrAdminU2F;
-     rt_steps := [SCheck; SAuth MWebUI; SSelfOrAdminU2F; SCheck; SEff EChange] |};
+     rt_steps := [SCheck; SAuth MWebUI; SSelfOrAdminU2F; SCheck; SMeth [POST]; SCheck; SEff EChange] |};
   {| rt_key := "runtimeState.webauthnAuthLogin"; rt_gate := GMask MAny XNone;
      rt_steps := [SAuth MAny; SCheck; SEff EStart] |};
   {| rt_key := "runtimeState.webauthnAuthFinish"; rt_gate := GMask MAny XNone;
@@ -224,6 +225,10 @@ Close Scope string_scope.
 (* the u2f token manager before it insisted on POST (kept for c06_old_manage_refuted) *)
 Definition manage_u2f_old_steps : list step :=
   [SAuth MWebUI; SCheck; SSelfOrAdminU2F; SCheck; SEff EChange].
+
+(* the two registration-finish handlers before they insisted on POST (kept for c06_old_register_finish_refuted) *)
+Definition register_finish_old_steps : list step :=
+  [SCheck; SAuth MWebUI; SSelfOrAdminU2F; SCheck; SEff EChange].
 
 (* ---- structural checkers (decidable; soundness is proved in Proofs/AuthGate.v) ---- *)
 
